@@ -354,7 +354,9 @@ jcoHash(JavaCode c)
 	if (jcoIsImport(c))
 		return strHash(jcoImportId(c)) + strHash(jcoImportPkg(c));
 	if (jcoIsToken(c))
-		return symHash(jcoToken(c));
+		/* by content: symHash is the symbol's address, and tables keyed
+		 * by JavaCode are iterated when declarations are emitted */
+		return strHash(symString(jcoToken(c)));
 	if (jcoIsImport(c))
 		return hashCombine(strHash(jcoImportPkg(c)), strHash(jcoImportId(c)));
 	if (jcoIsLiteral(c))
